@@ -1831,8 +1831,10 @@ class QueryBuilder(Selectable, Term):  # type:ignore[misc]
     def _with_sql(self, ctx: SqlContext) -> str:
         # a CTE is recursive when its body (an operand of its set operation) reads from the CTE's own name;
         # SQL Server and Oracle recurse without a keyword
+        # (only a set operation can recurse: a plain SELECT that reads a table of the CTE's own name means that table)
         recursive = ctx.dialect not in (Dialects.MSSQL, Dialects.ORACLE) and any(
-            self._reads_from(with_.query, with_.alias) for with_ in self._with
+            isinstance(with_.query, _SetOperation) and self._reads_from(with_.query, with_.alias)
+            for with_ in self._with
         )
 
         as_ctx = ctx.copy(subquery=False, with_alias=False)
